@@ -12,7 +12,7 @@ Theorem C12_aliases_interchangeable : forall (A : Type) sc (d : dict A) k k',
 Proof. exact alias_interchangeable. Qed.
 Print Assumptions C12_aliases_interchangeable.
 
-(* the nine synonym tables are well formed (no key is a synonym of two fields), so the hypothesis above holds for any two synonyms
+(* the twelve synonym tables are well formed (no key is a synonym of two fields), so the hypothesis above holds for any two synonyms
    of one field; and every key a writer emits is the primary key of a field its reader knows *)
 Theorem C12_schemas_wellformed : forallb wf_schema all_schemas = true.
 Proof. exact schemas_wellformed. Qed.
@@ -21,6 +21,22 @@ Print Assumptions C12_schemas_wellformed.
 Theorem C12_written_keys_are_read : forallb (fun p : list str * schema => writer_read (fst p) (snd p)) writers_and_readers = true.
 Proof. exact writers_are_read. Qed.
 Print Assumptions C12_written_keys_are_read.
+
+(* the tables above are regenerated from /repo's source on every run (harness/translate_schemas.py); over them also: every key a
+   reader looks up in the processed dictionary is a primary key (so what an alias or the writer provides is found), every field a
+   reader accepts is looked up (nothing accepted is ignored; `type` is read by the dispatching rdspace_from_dict), and every field
+   of a reader is emitted by its writer (nothing is dropped on the way out) - for all twelve reader / writer pairs *)
+Theorem C12_lookups_are_primary_keys : forallb (fun p : list str * schema => reads_primary (fst p) (snd p)) uses_and_readers = true.
+Proof. exact readers_read_primaries. Qed.
+Print Assumptions C12_lookups_are_primary_keys.
+
+Theorem C12_every_field_is_read : forallb (fun p : list str * schema => fields_read dispatch_keys (fst p) (snd p)) uses_and_readers = true.
+Proof. exact readers_read_every_field. Qed.
+Print Assumptions C12_every_field_is_read.
+
+Theorem C12_every_field_is_written : forallb (fun p : list str * schema => fields_written (fst p) (snd p)) writers_and_readers = true.
+Proof. exact writers_write_every_field. Qed.
+Print Assumptions C12_every_field_is_written.
 
 (* what the writers put into the dictionaries reads back: every quantity is written as str(UnitValue) (C18) ... *)
 Theorem C12_quantity_text : forall (F : Type) (parse_float : str -> option F) (print_float : F -> str) (zero : F),
